@@ -171,6 +171,14 @@ def layer(self, start=None, end=None, value=None, frame=None):
     if self._data is None and np.isnan(self.initial_value):
         return self
     self._clear_cache()
+    if self._data is not None and self._has_na():
+        # step changes cannot express layering inside undefined regions
+        result = self + self.__class__(closed=self.closed).layer(start, end, value, frame)
+        self.initial_value = result.initial_value
+        self._data = result._data
+        self._valid_deltas = result._valid_deltas
+        self._valid_values = result._valid_values
+        return self
     start, end, value = _preprocess_layer_args(frame, start, end, value)
     if not any(list(map(is_list_like, (start, end, value)))):
         return _layer_scalar(self, start, end, value)
